@@ -4,7 +4,7 @@ import math
 from harness import dtwgen
 
 COQ_FILES = ["theories/BandTie.v", "theories/Traceback.v", "theories/RelaxedEnd.v", "theories/RelaxedEndSpec.v",
-             "theories/TracebackC.v", "gen/Gen_ctrace.v", "theories/CTrace.v", "theories/CFillSim.v", "theories/CTraceSim.v", "theories/CTraceSpec.v", "theories/CFillTrace.v",
+             "theories/TracebackC.v", "gen/Gen_ctrace.v", "theories/CTrace.v", "theories/CTraceEnd.v", "theories/CFillSim.v", "theories/CTraceSim.v", "theories/CTraceSpec.v", "theories/CFillTrace.v",
              "gen/Gen_cwpsk.v", "theories/CWpsCanon.v", "theories/CWpsKernel.v", "theories/CWpsTie.v", "theories/CWpsSpec.v", "gen/Gen_cexpw.v", "theories/CWpsCanonEu.v", "theories/CWpsTieEu.v", "theories/CWpsValue.v", "theories/CWpsSpecEu.v", "theories/CWpsPrune.v", "theories/CWpsSpecB.v", "theories/CWpsSpecBEu.v", "theories/CWpsValueB.v", "theories/CExpW.v", "theories/CWpsMarks.v", "gen/Gen_cparts.v", "theories/CParts.v", "theories/CWpsFinal.v",
              "props/C05.v"]
 THEOREMS = [("DVProps.C05", "C05_traced_path_cost"), ("DVProps.C05", "C05_traced_path_contiguous"),
@@ -14,7 +14,8 @@ THEOREMS = [("DVProps.C05", "C05_traced_path_cost"), ("DVProps.C05", "C05_traced
             ("DVProps.C05", "C05_c_traceback_loops_follow_the_layout"),
             ("DVProps.C05", "C05_c_traceback_start_slot"), ("DVProps.C05", "C05_c_plain_decisions"),
             ("DVProps.C05", "C05_c_loops_are_canonical"), ("DVProps.C05", "C05_c_loop_path_cost"),
-            ("DVProps.C05", "C05_c_loop_path_cost_for_dtw"), ("DVProps.C05", "C05_c_fill_then_trace"), ("DVProps.C05", "C05_c_kernel_then_trace")]
+            ("DVProps.C05", "C05_c_loop_path_cost_for_dtw"), ("DVProps.C05", "C05_c_fill_then_trace"), ("DVProps.C05", "C05_c_kernel_then_trace"),
+            ("DVProps.C05", "C05_c_start_cell_rule_is_the_python_rule"), ("DVProps.C05", "C05_relaxed_end_is_that_rule")]
 TRUSTED_BASE = [
     "Coq 8.16.1 kernel (no native_compute)",
     "dtw.best_path is modelled by Traceback.tb (first minimum of [diag, up+pen, left+pen]); tied by exact path "
